@@ -1,4 +1,5 @@
 import RtVerif.Lemmas.C03Main
+import RtVerif.Lemmas.C03X
 /-
   C03 — property theorems (the axiom audit counts exactly the theorems of this file).
 
@@ -11,6 +12,19 @@ import RtVerif.Lemmas.C03Main
   T5  header parameters are looked up case-insensitively.
   The theorems about `number`, registered formats and validations are parametric in the external
   functions (`parseFloatFor` hand model, `Ext` graph): see `C03_partial` at the end.
+
+  Deepening (Model/C03X.lean):
+  TF1-TF5  `type: file` and form requests part by part: the last file part of the declared name with its
+      whole content and header; missing → 422 (required) / the zero file; file parts are not texts and
+      texts are not files; no panic; text parameters of a form refine `C03_holds_outside_known`.
+  TS1-TS6  struct targets: the width and sign of the FIELD decide what is accepted (never truncated or
+      wrapped), the declared `int32` range by the validator; pointer fields (nil / pointer to the value,
+      validated through the pointer); field lookup by exact exported name; no panic for any field kind;
+      the map-target model is the struct-target model at the kind `typeForSchema` picks.
+  C03S_holds_outside_known  the refinement theorem for struct targets, outside F03d, F03e, F03h, F03i.
+  TM1-TM3  several parameters of one operation (Model/C03M.lean): the multi-parameter bind is the product of
+      the single binds (independence), so the Spec lifts parameter by parameter and to the operation (the
+      handler runs iff every parameter is bound; otherwise 422, justified by some parameter's Spec).
 -/
 namespace RtVerif.C03
 open RtVerif Bytes
@@ -541,5 +555,532 @@ theorem F03d_real :
 theorem F03e_real :
     ∃ d r, d.wf = true ∧ known d r = some "F03e" ∧ specOk d r (bind d r) = false :=
   ⟨exDecl nLimit .query "boolean" "", ⟨nLimit, some [[98, 97, 110, 97, 110, 97]]⟩, by decide⟩
+
+/-! ## TF — `type: file` parameters and form requests part by part -/
+
+/-- **TF1 (the value, last occurrence).** In a multipart request whose parts are `pre ++ p :: post`, `p` a
+file part (a part with a file name) under the declared name and no later file part under that name: the
+handler receives a `runtime.File` with exactly `p`'s content (every byte, whatever its length), size,
+file name and field name — whatever precedes it (earlier file parts of the same name included), whether
+the parameter is required or not. -/
+theorem TF1_last_occurrence (name : Bytes) (required : Bool) (pre post : List Part) (p : Part)
+    (hn : p.name = name) (hf : p.filename ≠ [])
+    (hpost : ∀ q ∈ post, ¬ (q.name = name ∧ q.filename ≠ [])) :
+    bindFile name required .multipart (pre ++ p :: post) =
+      .file p.filename p.content.length p.content name := by
+  have hx : (fun q : Part => q.name == name && q.isFile) p = true := by
+    simp [Part.isFile, hn, hf]
+  have hp : ∀ q ∈ post, (fun q : Part => q.name == name && q.isFile) q = false := by
+    intro q hq
+    have := hpost q hq
+    simp only [Part.isFile]
+    by_cases h1 : q.name = name
+    · have h2 : q.filename = [] := by
+        apply Classical.byContradiction; intro h; exact this ⟨h1, h⟩
+      simp [h2]
+    · simp [h1]
+  simp only [bindFile, formGate, pickFile_last, filesOf]
+  rw [getLast?_filter_append _ pre post p hx hp]
+  simp [hn]
+
+example : bindFile [117] true .multipart
+    ([⟨[117], [97], [1, 2]⟩, ⟨[120], [], [9]⟩] ++ ⟨[117], [98], [0, 255, 13, 10]⟩ :: [⟨[117], [], [7]⟩]) =
+    .file [98] 4 [0, 255, 13, 10] [117] := by decide
+
+/-- **TF2 (missing).** No file part under the declared name in a multipart request (text fields of that
+name do not count), or a urlencoded form (which cannot carry files): a required file parameter is
+answered 422 (required) and the handler does not run; an optional one is bound to the zero
+`runtime.File`. -/
+theorem TF2_missing (name : Bytes) (required : Bool) (mode : FormMode) (parts : List Part)
+    (h : mode = .urlencoded ∨ (mode = .multipart ∧ ∀ q ∈ parts, ¬ (q.name = name ∧ q.filename ≠ []))) :
+    bindFile name required mode parts = if required then .out (.e422 602) else .nilFile := by
+  rcases h with rfl | ⟨rfl, hno⟩
+  · simp [bindFile, formGate, missingFile_eq]
+  · have : filesOf name parts = [] := by
+      apply List.filter_eq_nil_iff.2
+      intro q hq
+      have := hno q hq
+      simp only [Part.isFile]
+      by_cases h1 : q.name = name
+      · have h2 : q.filename = [] := by
+          apply Classical.byContradiction; intro h; exact this ⟨h1, h⟩
+        simp [h2]
+      · simp [h1]
+    simp [bindFile, formGate, pickFile_last, this, missingFile_eq]
+
+example : bindFile [117] true .multipart [⟨[117], [], [104, 105]⟩, ⟨[85], [97], [1]⟩] = .out (.e422 602) := by decide
+
+/-- **TF3 (Spec).** For every name, every request mode and every list of parts the model of the
+`type: file` branch yields what the Spec — written from the property text — expects: the last file part
+of that name with its content and header, the zero file / 422 when there is none, and for a request that
+is not a parseable form an error answer without the handler; it never panics. -/
+theorem TF3_file_spec (name : Bytes) (required : Bool) (mode : FormMode) (parts : List Part) :
+    fileOk (specFile name required mode parts) (bindFile name required mode parts) = true := by
+  cases mode with
+  | multipart =>
+    simp only [specFile, bindFile, formGate, pickFile_last, filesOf_eq]
+    cases hl : (parts.filter (fun p => p.name == name && !p.filename.isEmpty)).getLast? with
+    | none => cases required <;> simp [fileOk, missingFile_eq, isE422]
+    | some p => simp [fileOk]
+  | urlencoded => cases required <;> simp [specFile, bindFile, formGate, fileOk, missingFile_eq, isE422]
+  | truncated => simp [specFile, bindFile, formGate, fileOk]
+  | nobody => simp [specFile, bindFile, formGate, fileOk]
+  | other => simp [specFile, bindFile, formGate, fileOk]
+
+/-- never a panic, for any request -/
+theorem TF3_file_no_panic (name : Bytes) (required : Bool) (mode : FormMode) (parts : List Part) (why : String) :
+    bindFile name required mode parts ≠ .out (.panic why) := by
+  intro h
+  have := TF3_file_spec name required mode parts
+  rw [h] at this
+  cases specFile name required mode parts <;> simp [fileOk] at this
+
+/-- **TF4 (file parts are not texts).** For a text parameter of a multipart request the file parts do
+not count: the outcome is that of the request without them. -/
+theorem TF4_text_ignores_file_parts (d : Decl) (parts : List Part) :
+    bindFormText d .multipart parts = bindFormText d .multipart (parts.filter (fun p => !p.isFile)) := by
+  have : valuesOf .multipart d.name (parts.filter (fun p => !p.isFile)) = valuesOf .multipart d.name parts := by
+    simp only [valuesOf, List.filter_filter]
+    congr 1
+    apply List.filter_congr
+    intro p _
+    cases p.isFile <;> simp
+  simp only [bindFormText, formGate, formReq, this]
+
+/-- **TF5 (text parameters of a form).** For a well-formed text declaration `in: formData` and a
+multipart or urlencoded request given part by part (outside the recorded classes F03d, F03e): the model
+yields what the Spec expects for the texts of the TEXT parts of the declared name — the file parts of
+that name are not among them. -/
+theorem TF5_form_text_spec (d : Decl) (mode : FormMode) (parts : List Part)
+    (hm : mode = .multipart ∨ mode = .urlencoded) (hd : d.wf = true)
+    (hl : d.loc = .form ∨ d.loc = .mform) (hk : known d (formReq d mode parts) = none) :
+    fileOk (specFormText d mode parts) (bindFormText d mode parts) = true := by
+  have hr : Req.wf d (formReq d mode parts) = true := by
+    simp only [Req.wf, formReq]
+    rcases hl with h | h <;> rw [h] <;>
+      by_cases he : (valuesOf mode d.name parts).isEmpty = true <;> simp_all
+  have hmain := C03_holds_outside_known d (formReq d mode parts) hd hr hk
+  have hto : ∀ e o, fileOk (.text e) (.out o) = okFor e o := by
+    intro e o; cases o <;> cases e <;> rfl
+  rcases hm with rfl | rfl
+  · simp only [specFormText, bindFormText, formGate, ← formReq_spec, hto]
+    exact hmain
+  · simp only [specFormText, bindFormText, formGate, ← formReq_spec, hto]
+    exact hmain
+
+example : (fileTextDecl nLimit "integer" true).wf = true ∧
+    known (fileTextDecl nLimit "integer" true) (formReq (fileTextDecl nLimit "integer" true) .multipart
+      [⟨nLimit, [97], [55]⟩, ⟨nLimit, [], [52, 49]⟩]) = none ∧
+    bindFormText (fileTextDecl nLimit "integer" true) .multipart [⟨nLimit, [97], [55]⟩, ⟨nLimit, [], [52, 49]⟩] =
+      .out (.value (.scalar (.int 32 41))) := by decide
+
+/-! ## TS — struct targets of `UntypedRequestBinder.Bind` -/
+
+/-- **TS1 (width of a signed field).** Whatever the declared integer format: a non-empty text bound into
+an `int8 … int64` / `int` field yields `v` iff the text is a literal `[+-]?[0-9]+` denoting `v` within the
+FIELD's width; every other text is answered 422 — nothing is truncated or wrapped. -/
+theorem TS1_signed_field (ext : Option Ext) (w' : Nat) (p : Bool) (t : Bytes)
+    (hw' : w' = 8 ∨ w' = 16 ∨ w' = 32 ∨ w' = 64) :
+    (∀ v, convertTextT ext (.s (.int w') p) t = .ok (.int w' v) ↔ Num.IntLit t v ∧ Num.fitsInt w' v) ∧
+    ((¬ ∃ v, Num.IntLit t v ∧ Num.fitsInt w' v) → convertTextT ext (.s (.int w') p) t = .err 601) :=
+  convertInt_iff w' (widths_le hw') t
+
+/-- **TS1 (width of an unsigned field).** A text bound into a `uint8 … uint64` / `uint` field yields `n`
+iff it is a string of decimal digits denoting `n < 2^bits`; every other text (a sign included) is
+answered 422. -/
+theorem TS1_unsigned_field (ext : Option Ext) (b : Nat) (p : Bool) (t : Bytes)
+    (hb : b = 8 ∨ b = 16 ∨ b = 32 ∨ b = 64) :
+    (∀ n : Nat, convertTextT ext (.uint b p) t = .ok (.int b n) ↔
+        t ≠ [] ∧ (∀ c ∈ t, Num.isDigit c = true) ∧ n = Num.natOfDigits t ∧ n < 2 ^ b) ∧
+    ((¬ (t ≠ [] ∧ (∀ c ∈ t, Num.isDigit c = true) ∧ Num.natOfDigits t < 2 ^ b)) →
+        convertTextT ext (.uint b p) t = .err 601) := by
+  have hb64 : 2 ^ b ≤ 2 ^ 64 := Nat.pow_le_pow_right (by decide) (widths_le hb).2
+  simp only [convertTextT, convertUint]
+  constructor
+  · intro n
+    cases hp : Num.parseUint10 64 t with
+    | error e =>
+      simp only [reduceCtorEq, false_iff]
+      intro ⟨h1, h2, h3, h4⟩
+      have := (Num.parseUint10_ok_iff 64 t n).2 ⟨h1, h2, h3, by omega⟩
+      rw [hp] at this; cases this
+    | ok m =>
+      obtain ⟨h1, h2, h3, _⟩ := (Num.parseUint10_ok_iff 64 t m).1 hp
+      subst h3
+      by_cases hlt : Num.natOfDigits t < 2 ^ b
+      · simp only [hlt, if_true, ItemOut.ok.injEq, Scalar.int.injEq, true_and]
+        constructor
+        · intro h
+          have : Num.natOfDigits t = n := by exact_mod_cast h
+          exact ⟨h1, h2, this.symm, this ▸ hlt⟩
+        · intro ⟨_, _, h, _⟩; rw [h]
+      · simp only [hlt, if_false, reduceCtorEq, false_iff]
+        intro ⟨_, _, h, h'⟩
+        rw [h] at h'; exact hlt h'
+  · intro hno
+    cases hp : Num.parseUint10 64 t with
+    | error e => rfl
+    | ok m =>
+      obtain ⟨h1, h2, h3, _⟩ := (Num.parseUint10_ok_iff 64 t m).1 hp
+      subst h3
+      have hlt : ¬ Num.natOfDigits t < 2 ^ b := fun h => hno ⟨h1, h2, h⟩
+      simp [hlt]
+
+/-- **TS1, boundaries.** For every width of a signed field the greatest and least literals are bound,
+their neighbours outside are answered 422; for every width of an unsigned field `2^b - 1` is bound,
+`2^b` and `-1` are answered 422. -/
+theorem TS1_boundaries (w : Nat) (hw : w = 8 ∨ w = 16 ∨ w = 32 ∨ w = 64) :
+    convertTextT none (.s (.int w) false) (Num.formatInt (2 ^ (w - 1) - 1)) = .ok (.int w (2 ^ (w - 1) - 1)) ∧
+    convertTextT none (.s (.int w) false) (Num.formatInt (2 ^ (w - 1))) = .err 601 ∧
+    convertTextT none (.s (.int w) false) (Num.formatInt (-(2 ^ (w - 1)))) = .ok (.int w (-(2 ^ (w - 1)))) ∧
+    convertTextT none (.s (.int w) false) (Num.formatInt (-(2 ^ (w - 1)) - 1)) = .err 601 ∧
+    convertTextT none (.uint w false) (Num.formatInt (2 ^ w - 1)) = .ok (.int w (2 ^ w - 1)) ∧
+    convertTextT none (.uint w false) (Num.formatInt (2 ^ w)) = .err 601 ∧
+    convertTextT none (.uint w false) (Num.formatInt (-1)) = .err 601 := by
+  rcases hw with rfl | rfl | rfl | rfl <;> decide
+
+/-- **TS2 (the declared `int32` range).** A field wider than a declared `format: int32` does not widen
+the parameter: the validator's range check answers 422 for a value outside the int32 range. (No such
+check exists for `int8` / `int16`: finding F03h.) -/
+theorem TS2_int32_range (d : Decl) (x : Nat) (v : Int) (hty : d.ty = "integer") (hfmt : d.format = "int32")
+    (hv : ¬ Num.fitsInt 32 v) :
+    validatedT d (.value (.plain (.scalar (.int x v)))) = .e422 422 ∧
+    validatedT d (.value (.ptr (some (.int x v)))) = .e422 422 := by
+  have hr : rangeFails d.ty d.format (.int x v) = true := by simp [rangeFails, hty, hfmt, hv]
+  simp [validatedT, validateT, hr, fact_deref]
+
+/-- `3000000000` for a parameter declared `format: int32`, in an `int64` field and behind a `*int64` -/
+example : (exDecl nLimit .query "integer" "int32").ty = "integer" ∧ ¬ Num.fitsInt 32 3000000000 ∧
+    validatedT (exDecl nLimit .query "integer" "int32")
+      (bindRawT ⟨.s (.int 64) false, false⟩ (exDecl nLimit .query "integer" "int32")
+        ⟨nLimit, some [[51, 48, 48, 48, 48, 48, 48, 48, 48, 48]]⟩) = .e422 422 := by decide
+
+/-- **TS3 (pointer fields).** `*T`: a missing required parameter is answered 422; without text and
+without default the field is the nil pointer — which the validator is not run on; otherwise the field
+points to exactly what a plain field of type `T` would hold, and that value is validated. -/
+theorem TS3_pointer_table (d : Decl) (k : TKind) (dflt : Option DefScalar) (text : Bytes) (hasKey : Bool) :
+    (requiredFails d hasKey text = true → setPtrT d k dflt text hasKey = .e422 602) ∧
+    (requiredFails d hasKey text = false → text = [] → dflt = none →
+      setPtrT d k dflt text hasKey = .value (.ptr none)) ∧
+    (requiredFails d hasKey text = false → (text ≠ [] ∨ dflt.isSome = true) →
+      setPtrT d k dflt text hasKey = ptrOut (setFieldValueT d k dflt text hasKey)) ∧
+    validatedT d (.value (.ptr none)) = .value (.ptr none) ∧
+    (∀ io, validatedT d (ptrOut io) = toPtrO (validatedT d (.ofBind (itemOut io)))) := by
+  have hp : "Ptr" ∈ Facts.c03SetKinds := by decide
+  refine ⟨?_, ?_, ?_, ?_, fun io => validatedT_toPtr d io⟩
+  · intro h; simp [setPtrT, h]
+  · intro h ht hd
+    subst ht; subst hd
+    simp [setPtrT, h, fact_byteGuard, hp]
+  · intro h hc
+    have hn : (text.isEmpty && dflt.isNone) = false := by
+      rcases hc with hc | hc
+      · cases text with
+        | nil => exact (hc rfl).elim
+        | cons _ _ => rfl
+      · cases dflt with
+        | none => cases hc
+        | some _ => simp
+    simp [setPtrT, h, fact_byteGuard, hp, hn, fact_ptrDefault]
+  · simp [validatedT, fact_deref]
+
+example : validatedT (exDecl nLimit .query "integer" "int32")
+    (bindRawT ⟨.s (.int 64) false, true⟩ (exDecl nLimit .query "integer" "int32") ⟨nLimit, none⟩) = .value (.ptr none) ∧
+  validatedT (exDecl nLimit .query "integer" "int32")
+    (bindRawT ⟨.s (.int 64) false, true⟩ (exDecl nLimit .query "integer" "int32") ⟨nLimit, some [[52, 50]]⟩) =
+      .value (.ptr (some (.int 64 42))) := by decide
+
+/-- **TS4 (field lookup).** The struct field is looked up under the key the parameter is registered
+with, exactly (no case folding; the declared name plays no part): when that key names no exported field
+of the struct, the answer is an error (500), nothing is bound and nothing panics. -/
+theorem TS4_field_lookup (fields : List (String × Bool)) (key : String) (t : Target) (d : Decl) (r : Req)
+    (h : fields.contains (key, true) = false) :
+    bindInto fields key t d r = .e4xx 500 := by
+  unfold bindInto lookupField
+  cases hf : fields.find? (fun f => f.1 == key) with
+  | none => rfl
+  | some f =>
+    obtain ⟨n, e⟩ := f
+    have hmem := List.mem_of_find?_eq_some hf
+    have hn := List.find?_some hf
+    simp only [beq_iff_eq] at hn
+    subst hn
+    cases e with
+    | false => simp [fact_unexported]
+    | true =>
+      have : fields.contains (n, true) = true := by simpa using hmem
+      rw [this] at h; cases h
+
+example : bindInto [("F", true)] "f" ⟨.s (.int 64) false, false⟩ (exDecl nLimit .query "integer" "") ⟨nLimit, some [[53]]⟩ = .e4xx 500 := by
+  decide
+
+/-- **TS5 (no panic).** Binding into a struct never panics — for any fields, key, field kind (the kinds
+outside the `switch` included), pointer or not, any declaration and any request. -/
+theorem TS5_no_panic (fields : List (String × Bool)) (key : String) (t : Target) (d : Decl) (r : Req) (why : String) :
+    bindInto fields key t d r ≠ .panic why := by
+  have hof : ∀ o : BindOut, (∀ w, o ≠ .panic w) → ∀ w, validatedT d (.ofBind o) ≠ .panic w := by
+    intro o ho w
+    cases o with
+    | panic w' => exact (ho w' rfl).elim
+    | e422 c => simp [TOut.ofBind, validatedT]
+    | e4xx c => simp [TOut.ofBind, validatedT]
+    | value v =>
+      simp only [TOut.ofBind, validatedT]
+      cases validateT d (.plain v) <;> simp
+  have hitem : ∀ io : ItemOut, ∀ w, itemOut io ≠ .panic w := by
+    intro io w; cases io <;> simp [itemOut]
+  have hlist : ∀ tag l w, listOutT tag l ≠ .panic w := by
+    intro tag l w; unfold listOutT; split <;> simp
+  have hslice : ∀ k data hasKey w, setSliceFieldValueT d k data hasKey ≠ .panic w := by
+    intro k data hasKey w
+    unfold setSliceFieldValueT
+    split
+    · simp
+    · split
+      · unfold sliceDefaultT
+        split
+        · exact hlist _ _ _
+        · simp
+        · simp
+      · exact hlist _ _ _
+  have hbs : ∀ k w, bindSliceT d r k ≠ .panic w := by
+    intro k w
+    unfold bindSliceT
+    split
+    · split
+      · simp
+      · exact hslice _ _ _ _
+    · split
+      · exact hslice _ _ _ _
+      · exact hslice _ _ _ _
+  have hptr : ∀ k dflt text hasKey w, validatedT d (setPtrT d k dflt text hasKey) ≠ .panic w := by
+    intro k dflt text hasKey w
+    unfold setPtrT
+    simp only [fact_byteGuard, Bool.not_true, Bool.and_false, Bool.false_eq_true, if_false, fact_ptrKind,
+      fact_ptrDefault, Bool.false_and]
+    split
+    · simp [validatedT]
+    · split
+      · simp [validatedT, fact_deref]
+      · rw [validatedT_toPtr]
+        have := hof (itemOut (setFieldValueT d k dflt text hasKey)) (hitem _)
+        cases hv : validatedT d (.ofBind (itemOut (setFieldValueT d k dflt text hasKey))) with
+        | panic w' => exact (this w' hv).elim
+        | value v => simp [toPtrO]
+        | e422 c => simp [toPtrO]
+        | e4xx c => simp [toPtrO]
+  unfold bindInto
+  split
+  · simp
+  · simp [fact_unexported]
+  · unfold bindRawT
+    split
+    · exact hof _ (hbs _) why
+    · split
+      · exact hptr _ _ _ _ why
+      · exact hof _ (hitem _) why
+
+/-- **TS6 (one binder).** The map-target model of `Model/C03.lean` is the struct-target model at the
+kind `typeForSchema` picks for the declaration: the same conversions, the same decision table. -/
+theorem TS6_map_target (d : Decl) (r : Req) :
+    (∀ k, typeForSchema d = some (.scalar k) → bindRawT ⟨.s k false, false⟩ d r = .ofBind (bindRaw d r)) ∧
+    (∀ k, typeForSchema d = some (.slice k) → bindRawT ⟨.s k false, false⟩ d r = .ofBind (bindRaw d r)) := by
+  have hh : ∀ k : SKind, (TKind.s k false).handled = k.handled := by
+    intro k; cases k <;> rfl
+  have hset : ∀ (k : SKind) dflt text hasKey,
+      setFieldValueT d (.s k false) dflt text hasKey = setFieldValue d k dflt text hasKey := by
+    intro k dflt text hasKey
+    simp only [setFieldValueT, setFieldValue, hh, TKind.isReg, emptyValueT, convertTextT]
+  have hslice : ∀ (k : SKind) data hasKey,
+      setSliceFieldValueT d (.s k false) data hasKey = setSliceFieldValue d k data hasKey := by
+    intro k data hasKey
+    simp only [setSliceFieldValueT, setSliceFieldValue, sliceDefaultT, sliceDefault, hset, tagOfT]
+    rfl
+  constructor
+  · intro k hk
+    have harr : (d.ty == "array") = false := by
+      unfold typeForSchema at hk
+      by_cases ha : (d.ty == "array") = true
+      · simp only [ha, if_true] at hk
+        split at hk
+        · cases hk
+        · cases hs : scalarKind d.ext d.itemsTy d.itemsFormat <;> rw [hs] at hk <;> cases hk
+      · simpa using ha
+    simp only [bindRawT, harr, Bool.false_eq_true, if_false, hset, bindRaw, hk, bindScalar]
+  · intro k hk
+    have harr : (d.ty == "array") = true := by
+      unfold typeForSchema at hk
+      by_cases ha : (d.ty == "array") = true
+      · exact ha
+      · simp only [ha, Bool.false_eq_true, if_false] at hk
+        cases hs : scalarKind d.ext d.ty d.format <;> rw [hs] at hk <;> cases hk
+    simp only [bindRawT, harr, if_true, bindRaw, hk, bindSliceT, bindSlice, hslice]
+
+/-! ## The refinement theorem for struct targets -/
+
+/-- **C03 for struct targets.** For every struct whose field named by the key is exported, every field
+type that can hold the declared type (`Target.wf`: integer fields of any width and sign for an integer
+parameter, `float32`/`float64` for a number — `float64` only for `double` —, `bool`, `string`, the
+registered strfmt type, a pointer to one of those, a slice of one of those for an array; a declared
+default the field can hold), every well-formed declaration and request, outside the recorded finding
+classes (F03d, F03e texts; F03h `int8`/`int16` formats narrower than the field; F03i signed literals for an
+unsigned field): the model's `bindInto` yields exactly what the Spec — written from the property text —
+expects: the value the declared type denotes for the last text / the items / the default, as the field
+holds it; nil for a pointer field without text and default; 422 when the declared type or the field
+cannot hold the text's value or a declared validation fails; and never a panic. -/
+theorem C03S_holds_outside_known (fields : List (String × Bool)) (key : String) (t : Target) (d : Decl) (r : Req)
+    (hf : lookupField fields key = some true) (hd : d.wf = true) (hr : Req.wf d r = true)
+    (ht : t.wf d = true) (hk : knownT t d r = none) :
+    specOkT fields key t d r (bindInto fields key t d r) = true := by
+  have hc : fields.contains (key, true) = true := by
+    unfold lookupField at hf
+    cases hx : fields.find? (fun f => f.1 == key) with
+    | none => rw [hx] at hf; cases hf
+    | some f =>
+      rw [hx] at hf
+      obtain ⟨n, e⟩ := f
+      simp only [Option.map_some, Option.some.injEq] at hf
+      subst hf
+      have hmem := List.mem_of_find?_eq_some hx
+      have hn := List.find?_some hx
+      simp only [beq_iff_eq] at hn
+      subst hn
+      simpa using hmem
+  simp only [specOkT, hc, if_true, bindInto, hf]
+  have hwf := ht
+  unfold Target.wf at hwf
+  cases hsk : specKind d with
+  | none => rw [hsk] at hwf; simp at hwf
+  | some K =>
+    cases K with
+    | scalar k => exact struct_scalar t d r k hd hr hsk ht hk
+    | slice k => exact struct_slice t d r k hd hr hsk ht hk
+
+/-- non-vacuity: a declared `int64` parameter bound into an `int8` field, `?limit=1&limit=-128` -/
+example :
+    lookupField [("F", true)] "F" = some true ∧
+    (exDecl nLimit .query "integer" "int64").wf = true ∧
+    Req.wf (exDecl nLimit .query "integer" "int64") ⟨nLimit, some [[49], [45, 49, 50, 56]]⟩ = true ∧
+    Target.wf ⟨.s (.int 8) false, false⟩ (exDecl nLimit .query "integer" "int64") = true ∧
+    knownT ⟨.s (.int 8) false, false⟩ (exDecl nLimit .query "integer" "int64") ⟨nLimit, some [[49], [45, 49, 50, 56]]⟩ = none ∧
+    bindInto [("F", true)] "F" ⟨.s (.int 8) false, false⟩ (exDecl nLimit .query "integer" "int64")
+      ⟨nLimit, some [[49], [45, 49, 50, 56]]⟩ = .value (.plain (.scalar (.int 8 (-128)))) ∧
+    bindInto [("F", true)] "F" ⟨.s (.int 8) false, false⟩ (exDecl nLimit .query "integer" "int64")
+      ⟨nLimit, some [[49, 50, 56]]⟩ = .e422 601 := by
+  decide
+
+/-! ## The findings of the struct targets are real in the model -/
+
+/-- F03h: `300` for a parameter declared `format: int8`, bound into an `int64` field, is bound. -/
+theorem F03h_real :
+    ∃ t d r, d.wf = true ∧ Target.wf t d = true ∧ knownT t d r = some "F03h" ∧
+      specOkT [("F", true)] "F" t d r (bindInto [("F", true)] "F" t d r) = false :=
+  ⟨⟨.s (.int 64) false, false⟩, exDecl nLimit .query "integer" "int8", ⟨nLimit, some [[51, 48, 48]]⟩, by decide⟩
+
+/-- F03i: `+5` for an integer parameter bound into a `uint8` field is answered 422. -/
+theorem F03i_real :
+    ∃ t d r, d.wf = true ∧ Target.wf t d = true ∧ knownT t d r = some "F03i" ∧
+      specOkT [("F", true)] "F" t d r (bindInto [("F", true)] "F" t d r) = false :=
+  ⟨⟨.uint 8 false, false⟩, exDecl nLimit .query "integer" "int32", ⟨nLimit, some [[43, 53]]⟩, by decide⟩
+
+/-! ## TM — several parameters of one operation -/
+
+/-- **TM1 (independence).** The parameters of an operation are bound independently: the outcome for the
+`i`-th parameter is `bind` of that declaration alone, whatever the other declarations are and whatever
+was sent for them; binding a longer parameter list extends the outcomes. -/
+theorem TM1_independent (ps qs : List (Decl × Req)) :
+    bindAll (ps ++ qs) = bindAll ps ++ bindAll qs ∧
+    (bindAll ps).length = ps.length ∧
+    ∀ i (h : i < ps.length), (bindAll ps)[i]? = some (bind ps[i].1 ps[i].2) := by
+  refine ⟨by simp [bindAll], by simp [bindAll], ?_⟩
+  intro i h
+  simp [bindAll, h]
+
+/-- **TM2 (the Spec lifts, per parameter).** For well-formed declarations and requests outside the
+recorded classes, every parameter of the operation gets what its own Spec expects. -/
+theorem TM2_product (ps : List (Decl × Req))
+    (h : ∀ p ∈ ps, p.1.wf = true ∧ Req.wf p.1 p.2 = true ∧ known p.1 p.2 = none) :
+    specAll ps (bindAll ps) = true := by
+  simp only [specAll, bindAll, List.length_map, beq_self_eq_true, Bool.true_and, List.all_eq_true]
+  intro po hpo
+  obtain ⟨⟨d, r⟩, o⟩ := po
+  have hmem := List.of_mem_zip hpo
+  have ho : o = bind d r := by
+    have := List.mem_iff_getElem.1 hpo
+    obtain ⟨i, hi, he⟩ := this
+    simp only [List.getElem_zip, List.getElem_map, Prod.mk.injEq] at he
+    obtain ⟨h1, h2⟩ := he
+    rw [← h2, h1]
+  subst ho
+  obtain ⟨h1, h2, h3⟩ := h (d, r) hmem.1
+  exact C03_holds_outside_known d r h1 h2 h3
+
+/-- **TM3 (the Spec lifts, for the operation).** Under the same hypotheses the handler runs exactly when
+every parameter is bound, with the values the Specs expect; otherwise the request is answered 422, and at
+least one parameter's Spec admits the rejection. It never panics. -/
+theorem TM3_api (ps : List (Decl × Req))
+    (h : ∀ p ∈ ps, p.1.wf = true ∧ Req.wf p.1 p.2 = true ∧ known p.1 p.2 = none) :
+    specApi ps (apiOut (bindAll ps)) = true := by
+  have hall := TM2_product ps h
+  have hmemo : ∀ o ∈ bindAll ps, ∃ p ∈ ps, o = bind p.1 p.2 := by
+    intro o ho
+    simp only [bindAll, List.mem_map] at ho
+    obtain ⟨p, hp, rfl⟩ := ho
+    exact ⟨p, hp, rfl⟩
+  have hok : ∀ p ∈ ps, specOk p.1 p.2 (bind p.1 p.2) = true := by
+    intro p hp
+    obtain ⟨h1, h2, h3⟩ := h p hp
+    exact C03_holds_outside_known p.1 p.2 h1 h2 h3
+  have hnopanic : ∀ o ∈ bindAll ps, ∀ w, o ≠ .panic w := by
+    intro o ho w hc
+    obtain ⟨p, hp, rfl⟩ := hmemo o ho
+    have := hok p hp
+    rw [hc] at this
+    simp only [specOk] at this
+    cases specExpect p.1 p.2 <;> simp [okFor] at this
+  unfold apiOut
+  cases hv : valuesOf? (bindAll ps) with
+  | some vs =>
+    simp only [specApi]
+    rw [← valuesOf?_some _ _ hv]
+    exact hall
+  | none =>
+    obtain ⟨o, hf, hmem, hnv⟩ := firstFailure_of_none _ hv
+    obtain ⟨p, hp, rfl⟩ := hmemo o hmem
+    have hshape : ∃ c, bind p.1 p.2 = .e422 c := by
+      cases hb : bind p.1 p.2 with
+      | value v => exact (hnv v hb).elim
+      | panic w => exact (hnopanic _ hmem w hb).elim
+      | e4xx st => exact (bind_not_e4xx p.1 p.2 st hb).elim
+      | e422 c => exact ⟨c, rfl⟩
+    obtain ⟨c, hc⟩ := hshape
+    have hadm : ps.any admitsReject = true := by
+      simp only [List.any_eq_true]
+      refine ⟨p, hp, ?_⟩
+      have := hok p hp
+      rw [hc] at this
+      simp only [specOk] at this
+      unfold admitsReject
+      cases hse : specExpect p.1 p.2 with
+      | value v => rw [hse] at this; simp [okFor] at this
+      | _ => rfl
+    simp only
+    split
+    · -- a panic among the outcomes: impossible
+      rename_i w hfp
+      have := List.mem_of_find?_eq_some hfp
+      exact (hnopanic _ this w rfl).elim
+    · rw [hf, hc]
+      simp [specApi, hadm]
+
+/-- non-vacuity: `DELETE /op` with two formData parameters of one urlencoded body, `alpha=1&beta=two` -/
+example :
+    (∀ p ∈ [((exDecl nLimit .form "integer" "int32"), (⟨nLimit, some [[49]]⟩ : Req)),
+            ((exDecl nXRateLower .form "string" ""), ⟨nXRateLower, some [[116, 119, 111]]⟩)],
+        p.1.wf = true ∧ Req.wf p.1 p.2 = true ∧ known p.1 p.2 = none) ∧
+    apiOut (bindAll [((exDecl nLimit .form "integer" "int32"), (⟨nLimit, some [[49]]⟩ : Req)),
+            ((exDecl nXRateLower .form "string" ""), ⟨nXRateLower, some [[116, 119, 111]]⟩)]) =
+      .ran [.scalar (.int 32 1), .scalar (.str [116, 119, 111])] := by
+  decide
 
 end RtVerif.C03
